@@ -152,11 +152,25 @@ def check_occluders(ctx, R="C17.occluders"):
     cand = set(lib.locals_assigned(fn, lambda v: isinstance(v, ast.Call) and dotted(v.func) == "set" and keyset(v) is not None))
     posp = fn.args.args[0].arg
     tgtp = next((a.arg for a in fn.args.args if a.arg == "target"), fn.args.args[7].arg if len(fn.args.args) > 7 else None)
+    def from_target(e, depth=0):
+        """e is computed from the target parameter (through locals, whichever of their definitions)"""
+        names = lib.names_loaded(e)
+        if tgtp in names:
+            return True
+        if depth > 4:
+            return False
+        for nm in names:
+            for n_ in walk_local(fn):
+                if isinstance(n_, ast.Assign) and any(isinstance(t, ast.Name) and t.id == nm for t in n_.targets) and nm not in lib.names_loaded(n_.value):
+                    if from_target(n_.value, depth + 1):
+                        return True
+        return False
+
     # the distance of a point target: <viewer position>.distanceTo(<something computed from the target parameter>)
     tdist = set(
         lib.locals_assigned(
             fn,
-            lambda v: isinstance(v, ast.Call) and unparse(v.func) == f"{posp}.distanceTo" and len(v.args) == 1 and tgtp in lib.names_loaded(lib.role_expr(fn, v.args[0])),
+            lambda v: isinstance(v, ast.Call) and unparse(v.func) == f"{posp}.distanceTo" and len(v.args) == 1 and from_target(v.args[0]),
         )
     )
     if not tmaps or not cand or not tdist:
